@@ -8,7 +8,8 @@ SIZES = {"quick": 3000, "thorough": 150000}
 BATCH = 1500
 RULE = ("op sequences (load / loadres / clear / clearres) over flow, isolation, hotspot, circuit breaker, system, outlier; rule lists mix valid rules "
         "(boundary thresholds), one invalid rule per IsValidRule clause, nil elements, a small slice of foreign-resource and unbuildable rules, "
-        "verbatim reloads; after every state op the return class, GetRules/GetRulesOfResource and probe traffic (flow, isolation, breaker, system) "
+        "verbatim reloads and reloads with exactly one field of one rule changed (every field of every record, both load paths; also as a fixed "
+        "systematic corpus); after every state op the return class, GetRules/GetRulesOfResource and probe traffic (flow, isolation, breaker, system) "
         "on the touched resources are compared; fresh rule objects per load; non-trivial = some load that changed state contained an invalid or nil "
         "rule and probes returned both pass and block; distinct by (module, op kind, rule-kind) sequence")
 
@@ -17,21 +18,57 @@ RES = {"flow": ["f1", "f2", "f3"], "iso": ["i1", "i2", "i3"], "hot": ["h1", "h2"
 BIG = 2 ** 62
 
 
-# ---- rule pools: each returns (token, kind) ---------------------------------------------------------------------------------------
+# ---- rule records: one dict per rule, every field of the Go struct that validity / equality / DeepEqual / the getters look at ---------
+
+FIELDS = {
+    "flow": ["res", "tcs", "cb", "th2", "rel", "ref", "maxQ", "wp", "cf", "st", "lm", "hm", "ml", "mh", "id"],
+    "iso": ["res", "metric", "th", "id"],
+    "hot": ["res", "metric", "cb", "pidx", "pkey", "th", "maxQ", "burst", "dur", "cap", "items", "id"],
+    "cb": ["res", "s", "retry", "minReq", "stat", "bk", "maxRt", "th2", "probe", "id"],
+    "sys": ["metric", "th2", "st", "id"],
+    "out": ["pct", "rec", "act", "recyc", "att", "inner"],
+}
+# values a one-field delta may switch to (the generator never uses MinRequestAmount 2 or MaxAllowedRtMs >= 50: probe model)
+ALPHA = {
+    "flow": dict(res=["f1", "f2", "f3"], tcs=[0, 1, 2], cb=[0, 1], th2=[0, 1, 2, 3, 4, 6, 20, 200], rel=[0, 1], ref=["_", "f9", "f8"],
+                 maxQ=[0, 500, 7], wp=[0, 1, 10], cf=[0, 2, 3, 5], st=[0, 1000, 2000, 700], lm=[1000, 2000], hm=[100, 200],
+                 ml=[1024, 512], mh=[2048, 4096, 1 << 20], id=["_", "a", "b"]),
+    "iso": dict(res=["i1", "i2", "i3"], metric=[0, 1], th=[1, 2, 3, 10], id=["_", "a", "b"]),
+    "hot": dict(res=["h1", "h2"], metric=[0, 1], cb=[0, 1], pidx=[0, 1, -1], pkey=["_", "k", "k2"], th=[0, 1, 3, 100], maxQ=[0, 500, 7],
+                burst=[0, 2, 4], dur=[1, 5, 0], cap=[0, 100, 50], items=[0, 1, 2, 7], id=["_", "a", "b"]),
+    "cb": dict(res=["c1", "c2", "c3"], s=[0, 1, 2], retry=[1000, 5000], minReq=[0, 1, 100], stat=[1000, 10000], bk=[0, 1, 2, 3],
+               maxRt=[0, 10, 20], th2=[0, 1, 2, 4, 10], probe=[0, 1, 3], id=["_", "a", "b"]),
+    "sys": dict(metric=[0, 1, 2, 3, 4], th2=[0, 1, 2, 8, 9, 20], st=[-1, 0, 1], id=["_", "a", "b"]),
+    "out": dict(pct=[0, 1, 2], rec=[0, 1000, 500], act=[0, 1], recyc=[0, 60], att=[0, 3]),
+}
+
+
+def tok(mod, r):
+    """the op-line token of a rule dict (None = nil)"""
+    if r is None:
+        return "-"
+    if mod == "out":
+        inner = "-" if r["inner"] is None else tok("cb", r["inner"])
+        return ";".join(str(r[k]) for k in FIELDS["out"][:-1]) + ";" + inner
+    return ",".join(str(r[k]) for k in FIELDS[mod])
+
+
+def rid(rng):
+    return rng.choice(["_"] * 12 + ["a", "b"])
+
 
 def flow_rule(rng, res, kind):
-    # res,tcs,cb,th2,rel,ref,maxQ,wp,cf,st,lm,hm,ml,mh
     st = rng.choice([0, 0, 0, 1000, 2000, 700])
     th = rng.choice([0, 0, 1, 2, 3, 4, 6, 20])
-    f = dict(res=res, tcs=0, cb=rng.choice([0, 0, 1]), th2=th, rel=0, ref="_", maxQ=0, wp=0, cf=0, st=st, lm=0, hm=0, ml=0, mh=0)
+    f = dict(res=res, tcs=0, cb=rng.choice([0, 0, 1]), th2=th, rel=0, ref="_", maxQ=0, wp=0, cf=0, st=st, lm=0, hm=0, ml=0, mh=0, id=rid(rng))
     if kind == "valid":
         v = rng.random()
-        if v < 0.62:
+        if v < 0.55:
             if f["cb"] == 1:
                 f["maxQ"] = rng.choice([0, 500])
-        elif v < 0.80:
+        elif v < 0.72:
             f.update(tcs=1, cb=rng.choice([0, 1]), th2=rng.choice([20, 200]), wp=rng.choice([1, 10]), cf=rng.choice([0, 0, 2, 3, 5]), st=0)
-        elif v < 0.88:
+        elif v < 0.86:
             f.update(tcs=2, cb=rng.choice([0, 1]), lm=1000, hm=100, ml=1024, mh=rng.choice([2048, 1 << 20]), st=0)
         elif v < 0.95:
             f.update(rel=1, ref="f9", st=rng.choice([0, 2000]))
@@ -59,29 +96,27 @@ def flow_rule(rng, res, kind):
         elif c == 13: f.update(mem, mh=rng.choice([0, -1]))
         elif c == 14: f.update(mem, mh=BIG)
         elif c == 15: f.update(mem, ml=rng.choice([2048, 4096]))
-    tok = ",".join(str(f[k]) for k in ["res", "tcs", "cb", "th2", "rel", "ref", "maxQ", "wp", "cf", "st", "lm", "hm", "ml", "mh"])
-    return tok, kind
+    return f, kind
 
 
 def iso_rule(rng, res, kind):
-    m, th = 0, rng.choice([1, 1, 2, 3, 10])
-    if kind == "inv1": res = "_"
-    elif kind == "inv2": m = rng.choice([1, -1])
-    elif kind == "inv3": th = 0
-    return f"{res},{m},{th}", kind
+    f = dict(res=res, metric=0, th=rng.choice([1, 1, 2, 3, 10]), id=rid(rng))
+    if kind == "inv1": f["res"] = "_"
+    elif kind == "inv2": f["metric"] = rng.choice([1, -1])
+    elif kind == "inv3": f["th"] = 0
+    return f, kind
 
 
 def hot_rule(rng, res, kind):
-    # res,metric,cb,pidx,pkey,th,maxQ,burst,dur,cap,items
     f = dict(res=res, metric=1, cb=0, pidx=rng.choice([0, 0, 1, -1]), pkey="_", th=rng.choice([0, 1, 3, 100]), maxQ=0, burst=rng.choice([0, 0, 2]),
-             dur=rng.choice([1, 1, 5]), cap=rng.choice([0, 0, 100]), items=rng.choice([0, 0, 1, 1, 2, 7]))
+             dur=rng.choice([1, 1, 5]), cap=rng.choice([0, 0, 100]), items=rng.choice([0, 0, 1, 1, 2, 7]), id=rid(rng))
     if kind == "valid":
         v = rng.random()
         if v < 0.45:
-            if rng.random() < 0.15:
-                f["maxQ"] = 7           # irrelevant under Reject: not compared by Rule.Equals
+            if rng.random() < 0.10:
+                f["maxQ"] = 7           # ignored under Reject, also by Rule.Equals (stale-equal-rule region when it is the only change)
         elif v < 0.65:
-            f.update(cb=1, maxQ=rng.choice([0, 500]), burst=rng.choice([0, 0, 4]))
+            f.update(cb=1, maxQ=rng.choice([0, 500]), burst=rng.choice([0, 0, 0, 4]))
         elif v < 0.82:
             f.update(metric=0, dur=rng.choice([0, 1]))
         elif v < 0.93:
@@ -100,16 +135,14 @@ def hot_rule(rng, res, kind):
         elif c == 6: f.update(pidx=rng.choice([1, 3]), pkey="k")
         elif c == 7: f.update(cb=0, burst=-1)
         elif c == 8: f.update(cb=1, maxQ=-1)
-    tok = ",".join(str(f[k]) for k in ["res", "metric", "cb", "pidx", "pkey", "th", "maxQ", "burst", "dur", "cap", "items"])
-    return tok, kind
+    return f, kind
 
 
 def cb_rule(rng, res, kind, unbuildable_ok=True):
-    # res,strategy,retry,minReq,statMs,buckets,maxRt,th2,probe
     s = rng.choice([0, 1, 2, 2])
     f = dict(res=res, s=s, retry=rng.choice([1000, 5000]), minReq=rng.choice([0, 1, 1, 100]), stat=rng.choice([1000, 10000]),
              bk=rng.choice([0, 1, 2, 3]), maxRt=rng.choice([0, 10, 20]), th2=rng.choice([0, 1, 2]) if s < 2 else rng.choice([0, 1, 2, 3, 4, 10]),
-             probe=rng.choice([0, 0, 1, 3]))
+             probe=rng.choice([0, 0, 1, 3]), id=rid(rng))
     if kind == "valid":
         if unbuildable_ok and rng.random() < 0.04:
             kind = "unbuildable"
@@ -122,28 +155,26 @@ def cb_rule(rng, res, kind, unbuildable_ok=True):
         elif c == 4: f.update(th2=rng.choice([-1, -2]), s=rng.choice([0, 1, 2]), minReq=rng.choice([0, 1]))
         elif c == 5: f.update(s=0, th2=rng.choice([3, 4]))
         elif c == 6: f.update(s=1, th2=rng.choice([3, 10]))
-    tok = ",".join(str(f[k]) for k in ["res", "s", "retry", "minReq", "stat", "bk", "maxRt", "th2", "probe"])
-    return tok, kind
+    return f, kind
 
 
 def sys_rule(rng, _res, kind):
     m = rng.choice([0, 1, 2, 3, 4])
-    th = rng.choice([0, 1, 2]) if m == 4 else rng.choice([0, 0, 1, 2, 7, 8, 9, 20])
-    st = rng.choice([-1, -1, 0, 1])
-    if kind == "inv1": th = rng.choice([-1, -3])
-    elif kind == "inv2": m = rng.choice([5, 6, 40])
-    elif kind == "inv3": m, th = 4, rng.choice([3, 4])
-    return f"{m},{th},{st}", kind
+    f = dict(metric=m, th2=rng.choice([0, 1, 2]) if m == 4 else rng.choice([0, 0, 1, 2, 7, 8, 9, 20]), st=rng.choice([-1, -1, 0, 1]), id=rid(rng))
+    if kind == "inv1": f["th2"] = rng.choice([-1, -3])
+    elif kind == "inv2": f["metric"] = rng.choice([5, 6, 40])
+    elif kind == "inv3": f.update(metric=4, th2=rng.choice([3, 4]))
+    return f, kind
 
 
 def out_rule(rng, res, kind):
-    pct, rec = rng.choice([0, 1, 2]), rng.choice([0, 0, 1000])
-    inner, _ = cb_rule(rng, res, "valid", unbuildable_ok=False)
-    if kind == "inv1": inner, _ = cb_rule(rng, "_", "valid", unbuildable_ok=False)
-    elif kind == "inv2": pct = rng.choice([-1, 3])
-    elif kind == "inv3": inner, _ = cb_rule(rng, res, "inv" + str(rng.choice([2, 3, 4, 5, 6])))
-    elif kind == "inv4": inner = "-"
-    return f"{pct};{rec};{inner}", kind
+    f = dict(pct=rng.choice([0, 1, 2]), rec=rng.choice([0, 0, 1000]), act=rng.choice([0, 0, 1]), recyc=rng.choice([0, 0, 60]), att=rng.choice([0, 0, 3]))
+    f["inner"], _ = cb_rule(rng, res, "valid", unbuildable_ok=False)
+    if kind == "inv1": f["inner"], _ = cb_rule(rng, "_", "valid", unbuildable_ok=False)
+    elif kind == "inv2": f["pct"] = rng.choice([-1, 3])
+    elif kind == "inv3": f["inner"], _ = cb_rule(rng, res, "inv" + str(rng.choice([2, 3, 4, 5, 6])))
+    elif kind == "inv4": f["inner"] = None
+    return f, kind
 
 
 POOL = {"flow": (flow_rule, 15), "iso": (iso_rule, 3), "hot": (hot_rule, 8), "cb": (cb_rule, 6), "sys": (sys_rule, 3), "out": (out_rule, 4)}
@@ -154,11 +185,28 @@ def pick_rule(rng, mod, res, stats):
     r = rng.random()
     if r < 0.10:
         stats["nil"] += 1
-        return "-", "nil"
+        return None, "nil"
     kind = "valid" if r < 0.62 else "inv" + str(rng.randint(1, ncl))
-    tok, kind = fn(rng, res, kind)
+    f, kind = fn(rng, res, kind)
     stats["invalid" if kind.startswith("inv") else kind] += 1
-    return tok, kind
+    return f, kind
+
+
+def delta(rng, mod, r):
+    """a copy of rule dict r with exactly one field changed (every field of the record can be hit); returns (copy, field)"""
+    r = dict(r)
+    if mod == "out" and r["inner"] is not None and rng.random() < 0.6:
+        r["inner"], fld = delta(rng, "cb", r["inner"])
+        return r, "inner." + fld
+    fld = rng.choice([k for k in FIELDS[mod] if k != "inner"])
+    alts = [v for v in ALPHA[mod][fld] if v != r[fld]]
+    r[fld] = rng.choice(alts)
+    return r, fld
+
+
+def load_op(mod, kind, res, rules):
+    body = f"{len(rules)}" + "".join(" " + tok(mod, x) for x in rules)
+    return f"load {mod} {body}" if kind == "load" else f"loadres {mod} {res} {body}"
 
 
 def observe(rng, mod, touched, everything=False):
@@ -187,63 +235,120 @@ def observe(rng, mod, touched, everything=False):
 def gen_case(rng, cid, stats):
     mods = rng.sample(MODS, rng.choice([1, 1, 2, 2, 3]))
     ops, kinds = [], []
-    last = {}                      # module -> last state op (for verbatim reloads)
+    last = {}                      # module -> (kind, res, rule dicts, touched) of the last load / loadres
     for _ in range(rng.randint(4, 14)):
         mod = rng.choice(mods)
         names = RES.get(mod, ["-"])
         r = rng.random()
-        if r < 0.14 and mod in last:
-            op, touched = last[mod]                     # identical reload
+        prev = last.get(mod)
+        if r < 0.12 and prev:
+            kind, res, rules, touched = prev                                   # identical reload (fresh objects, same values)
+            op = load_op(mod, kind, res, rules)
             kinds.append((mod, "again"))
-        elif r < 0.52 or mod == "sys":
-            if r > 0.48 and mod == "sys":
+        elif r < 0.30 and prev and any(x is not None for x in prev[2]):
+            kind, res, rules, touched = prev                                   # reload with exactly one field of one rule changed
+            rules = list(rules)
+            i = rng.choice([j for j, x in enumerate(rules) if x is not None])
+            rules[i], fld = delta(rng, mod, rules[i])
+            stats["delta"] = stats.get("delta", 0) + 1
+            if rng.random() < 0.25 and mod not in ("sys", "out"):             # ... through the other load path
+                if kind == "load":
+                    res = rules[i]["res"] if rules[i]["res"] != "_" else names[0]
+                    kind, rules = "loadres", [x for x in rules if x is not None and x["res"] == res]
+                    touched = [res]
+                else:
+                    kind, touched = "load", list(names)
+            op = load_op(mod, kind, res, rules)
+            last[mod] = (kind, res, rules, touched)
+            kinds.append((mod, "delta", fld))
+        elif r < 0.60 or mod == "sys":
+            if r > 0.56 and mod == "sys":
                 op, touched = "clear sys", []
                 kinds.append((mod, "clear"))
             else:
                 n = rng.choice([0, 1, 1, 2, 2, 3, 4, 6])
-                toks, ks = [], []
+                rules, ks = [], []
                 for _ in range(n):
-                    res = rng.choice(names)
-                    t, k = pick_rule(rng, mod, res, stats)
-                    toks.append(t); ks.append(k)
-                op = f"load {mod} {n}" + "".join(" " + t for t in toks)
+                    f, k = pick_rule(rng, mod, rng.choice(names), stats)
+                    rules.append(f); ks.append(k)
+                op = load_op(mod, "load", None, rules)
                 touched = list(names)
+                last[mod] = ("load", None, rules, touched)
                 kinds.append((mod, "load", tuple(sorted(set(ks)))))
-        elif r < 0.88:
+        elif r < 0.90:
             res = rng.choice(names + (["_"] if rng.random() < 0.08 else []))
-            if mod == "out":
-                n = rng.choice([0, 1, 1, 1, 1])
-            else:
-                n = rng.choice([0, 1, 1, 2, 2, 3, 4])
-            toks, ks = [], []
+            n = rng.choice([0, 1, 1, 1, 1]) if mod == "out" else rng.choice([0, 1, 1, 2, 2, 3, 4])
+            rules, ks = [], []
             for _ in range(n):
                 rr = res
                 if rng.random() < 0.04 and res != "_":
                     rr = rng.choice([x for x in names if x != res])       # a rule naming another resource
                     stats["foreign"] += 1
-                t, k = pick_rule(rng, mod, rr if rr != "_" else names[0], stats)
-                toks.append(t); ks.append(k)
-            op = f"loadres {mod} {res} {n}" + "".join(" " + t for t in toks)
+                f, k = pick_rule(rng, mod, rr if rr != "_" else names[0], stats)
+                rules.append(f); ks.append(k)
+            op = load_op(mod, "loadres", res, rules)
             touched = [res] + ([rng.choice(names)] if rng.random() < 0.5 else [])       # plus another one: locality
+            last[mod] = ("loadres", res, rules, touched)
             kinds.append((mod, "loadres", tuple(sorted(set(ks)))))
-        elif r < 0.94:
+        elif r < 0.95:
             res = rng.choice(names)
             op, touched = f"clearres {mod} {res}", [res, rng.choice(names)]
             kinds.append((mod, "clearres"))
         else:
             op, touched = f"clear {mod}", list(names)
             kinds.append((mod, "clear"))
-        last[mod] = (op, touched)
         ops.append(op)
         ops += observe(rng, mod, list(dict.fromkeys(touched)))
     return Case(cid, ops, tags=tuple(mods)), kinds
+
+
+# ---- systematic one-field deltas: every field of every record, both load paths, every base rule shape ------------------------------
+
+def _bases():
+    F = dict(res="f1", tcs=0, cb=0, th2=4, rel=0, ref="_", maxQ=0, wp=0, cf=0, st=0, lm=0, hm=0, ml=0, mh=0, id="_")
+    H = dict(res="h1", metric=1, cb=0, pidx=0, pkey="_", th=3, maxQ=0, burst=0, dur=1, cap=0, items=1, id="_")
+    C = dict(res="c1", s=2, retry=1000, minReq=1, stat=1000, bk=0, maxRt=0, th2=2, probe=0, id="_")
+    return {
+        "flow": [F, dict(F, cb=1, maxQ=500), dict(F, tcs=1, th2=20, wp=10, cf=3), dict(F, tcs=1, cb=1, th2=20, wp=10, cf=2, maxQ=500),
+                 dict(F, tcs=2, lm=1000, hm=100, ml=1024, mh=2048), dict(F, tcs=2, cb=1, lm=1000, hm=100, ml=1024, mh=2048),
+                 dict(F, rel=1, ref="f9", st=2000)],
+        "iso": [dict(res="i1", metric=0, th=2, id="_")],
+        "hot": [H, dict(H, cb=1, maxQ=500), dict(H, metric=0, dur=0), dict(H, pkey="k", items=2)],
+        "cb": [C, dict(C, s=0, th2=1, maxRt=10), dict(C, s=1, th2=1)],
+        "sys": [dict(metric=3, th2=8, st=-1, id="_"), dict(metric=4, th2=1, st=0, id="_")],
+        "out": [dict(pct=1, rec=0, act=0, recyc=0, att=0, inner=dict(C, res="o1"))],
+    }
+
+
+def delta_corpus():
+    cases = []
+    for mod, bases in _bases().items():
+        for bi, base in enumerate(bases):
+            variants = []
+            for fld in FIELDS[mod]:
+                if fld == "inner":
+                    for f2 in FIELDS["cb"]:
+                        for v in [x for x in ALPHA["cb"][f2] if x != base["inner"][f2]][:2]:
+                            if f2 == "res": v = "o2"
+                            variants.append(("inner." + f2, dict(base, inner=dict(base["inner"], **{f2: v}))))
+                    continue
+                for v in [x for x in ALPHA[mod][fld] if x != base[fld]][:2]:
+                    variants.append((fld, dict(base, **{fld: v})))
+            res = base.get("res") or (base["inner"]["res"] if mod == "out" else None)
+            for fld, var in variants:
+                for path in (("load", "loadres") if mod != "sys" else ("load",)):
+                    ops = [load_op(mod, path, res, [base])] + observe(None, mod, [res], everything=True)
+                    ops += [load_op(mod, path, res, [var])] + observe(None, mod, [res], everything=True)
+                    ops += [load_op(mod, path, res, [base])] + observe(None, mod, [res], everything=True)
+                    cases.append(Case(f"delta-{mod}{bi}-{fld}-{path}", ops, tags=("corpus", "delta")))
+    return cases
 
 
 _KINDS = {}
 
 
 def gen(ctx, n):
-    stats = ctx.cov.setdefault("generator_rule_kinds", {"valid": 0, "invalid": 0, "nil": 0, "unbuildable": 0, "foreign": 0})
+    stats = ctx.cov.setdefault("generator_rule_kinds", {"valid": 0, "invalid": 0, "nil": 0, "unbuildable": 0, "foreign": 0, "delta": 0})
     res = []
     for i in range(n):
         c, kinds = gen_case(ctx.rng, f"g{ctx.seed}-{ctx.cov.get('traces_validated_against_impl', 0)}-{i}", stats)
@@ -259,7 +364,7 @@ def corpus():
     for p in sorted(glob.glob(os.path.join(ROOT, "corpus", PROP, "*.ops"))):
         ops = [l.rstrip("\n") for l in open(p) if l.strip() and not l.startswith("#") and not l.startswith("case ")]
         res.append(Case(os.path.basename(p), ops, tags=("corpus",)))
-    return res
+    return res + delta_corpus()
 
 
 def densify(ops, rng):
@@ -307,8 +412,8 @@ META = {
                    "return classes, GetRules/GetRulesOfResource and the decisions of api.Entry probes; the spec (filter-valid-of-latest recomputed from "
                    "the history) is compared with the implementation directly."),
     "level_note": ("Trusted: Lean kernel; axioms propext/Classical.choice/Quot.sound; Go harness, virtual clock, canonical printing (thresholds in halves, "
-                   "GetRules sorted, hotspot BurstCount/MaxQueueingTimeMs printed only under the behaviour that reads them). Modelled not verified: Go maps as "
-                   "total functions, rule IDs and controller reuse (C14) left out, probe decisions only for an idle system and Direct/current-resource flow "
+                   "GetRules sorted, every field printed). Modelled not verified: Go maps as "
+                   "total functions, runtime state of reused controllers (C14) left out, probe decisions only for an idle system and Direct/current-resource flow "
                    "rules, total memory size taken as 2^50, outlier probes not run."),
     "design_ref": "DESIGN.md 6.C13",
 }
